@@ -76,6 +76,21 @@ def file_task(task):
                                                                      f"{sorted(b - a)[:3]}", nohdr_text, full_text))
     elif (nohdr[1] is None) != (full[1] is None):
         out.append(("L1", "header-changes-fatality", f"exc {nohdr[1]} without header, {full[1]} with", nohdr_text, full_text))
+    # ---- L1b: the header put *directly* in front (no empty line): every other diagnostic moves down 11 lines
+    direct_text = norm.render(pre[:header42.HEADER_NLINES]) + nohdr_text
+    direct = diffcommon.diag4(fname, direct_text)
+    n += 1
+    if nohdr[1] is None and direct[1] is None:
+        rest = list(nohdr[0])
+        inv = [d for d in rest if d[1] == "INVALID_HEADER"]
+        if len(inv) == 1:
+            rest.remove(inv[0])
+            want = shift(rest, 1, header42.HEADER_NLINES)
+            if sorted(direct[0]) != want:
+                a, b = set(direct[0]), set(want)
+                first = "comment" if nohdr_text.lstrip().startswith(("/*", "//")) else "directive" if nohdr_text.startswith("#") else "code"
+                out.append(("L1", f"header-directly-in-front:first-line={first}", f"with header only {sorted(a - b)[:3]}, shifted headerless "
+                                                                                   f"only {sorted(b - a)[:3]}", nohdr_text, direct_text))
     # ---- L2: a comment line at every top-level point
     npre = len(pre)
     if full[1] is None:
@@ -166,7 +181,8 @@ def replay(payload):
         return [Failure("C19", payload["law"], f"{a[0][:4]} vs {b[0][:4]}", payload)]
     # same codes: compare line shifts exactly
     if payload["law"] == "L1":
-        want = shift([d for d in a[0] if d[1] != "INVALID_HEADER"], 1, header42.HEADER_NLINES + 1)
+        by = payload["base"].count("\n") - payload["text"].count("\n")
+        want = shift([d for d in a[0] if d[1] != "INVALID_HEADER"], 1, by)
         return [] if want == sorted(b[0]) else [Failure("C19", "L1", "line shift differs", payload)]
     da = [d[2] for d in sorted(a[0])]
     db = [d[2] for d in sorted(b[0])]
